@@ -35,6 +35,7 @@ REQUIRED = {
         'peatclsm-curves': 20,
         'integer-typed-grids': 20,
         'cli-tables-checked': 8,
+        'cli-cases-with-levels-above-a-million-mm': 2,
         'cli-parameter-files-with-specific-yield-only': 2,
         'cli-observation-vectors-checked': 8,
         'cli-output-on-stdout': 4,
@@ -150,6 +151,11 @@ def check_cli_case(ctx, rng, index):
 
     rec = ctx.rec
     case = gen_planted.gen(rng) if index % 3 else gen_planted.gen_noisy(rng)
+    if index % 3 == 2:
+        # water level recorded against a distant datum (sea level at a site above 1000 m): levels
+        # with seven and more significant digits in the table
+        case = dict(case, z=[[t, v + 1250000.0] for t, v in case['z']])
+        rec.hit('cli-cases-with-levels-above-a-million-mm')
     db = os.path.join(ctx.workdir, 'r{}.sqlite3'.format(index))
     err = curves_common.make_curves_db(ctx, case, db)
     if err:
